@@ -411,11 +411,12 @@ not list its id — it lists the id `b:8081,id1` with address `http://a` instead
 never becomes the live set. -/
 theorem live_persists_refuted_with_comma : ¬ LivePersistsAnyAddress := by
   intro h
-  have hT : Timed 0 0 commaEvs 12 := by simp [commaEvs, Timed, Ev.time, Ev.DelayOK]
+  have hT : Timed 0 0 commaEvs 12 := by delta commaEvs; simp [Timed, Ev.time, Ev.DelayOK]
   have hF : Fair commaPubs 0 0 commaEvs 12 := by
     refine ⟨?_, ?_⟩
     · intro s a m hm
-      simp only [commaEvs, List.mem_cons, Ev.recv.injEq, List.not_mem_nil, or_false] at hm
+      delta commaEvs at hm
+      simp only [List.mem_cons, Ev.recv.injEq, List.not_mem_nil, or_false] at hm
       rcases hm with ⟨rfl, _, rfl⟩ | ⟨rfl, _, rfl⟩ | ⟨rfl, _, rfl⟩
       · exact ⟨rfl, 0, by decide⟩
       · exact ⟨rfl, 1, by decide⟩
@@ -424,9 +425,9 @@ theorem live_persists_refuted_with_comma : ¬ LivePersistsAnyAddress := by
       obtain ⟨rfl, i, rfl⟩ := hP
       have hi : i = 0 ∨ i = 1 ∨ i = 2 := by omega
       rcases hi with rfl | rfl | rfl
-      · exact ⟨3, by simp [commaEvs]⟩
-      · exact ⟨6, by simp [commaEvs]⟩
-      · exact ⟨9, by simp [commaEvs]⟩
+      · exact ⟨3, by delta commaEvs; simp⟩
+      · exact ⟨6, by delta commaEvs; simp⟩
+      · exact ⟨9, by delta commaEvs; simp⟩
   have hpub : PublishesEvery commaPubs commaNode 0 3 := by
     intro τ hτ
     have hq : 0 ≤ τ / 3 := Int.ediv_nonneg hτ (by decide)
@@ -457,7 +458,7 @@ def n2 : Node := ⟨[110, 50], [121]⟩
 
 -- out of order: n2's unregister (published at 5) is handled *before* its register published at 4
 def oooEvs : List Ev := [.recv 5 5 (unregMsg n2), .recv 4 6 (regMsg n2)]
-example : Timed 2 0 oooEvs 16 := by simp [oooEvs, Timed, Ev.time, Ev.DelayOK]
+example : Timed 2 0 oooEvs 16 := by delta oooEvs; simp [Timed, Ev.time, Ev.DelayOK]
 -- … so n2 is listed again, until the late register's own expiry: still there at 6 + 10 = T0 + d + ttl …
 example : peersAt 10 n1 0 oooEvs 16 = [[121]] := by decide
 -- … and gone one tick later, as `stale_expires` (T0 = 4, d = 2, ttl = 10) says; n1 itself expired
